@@ -29,8 +29,10 @@ fn c19_q_three_routes_same_cel() {
     let l: u32 = kani::any();
     kani::assume(f < 2 && l < 3);
     let a = file.cel(f, l);
-    let b = file.frame(f).layer(l);
-    let c = file.layer(l).frame(f);
+    let fr = file.frame(f);
+    let b = fr.layer(l);
+    let ly = file.layer(l);
+    let c = ly.frame(f);
     for x in [&a, &b, &c] {
         assert!(x.frame() == f && x.layer() == l, "route reports the requested (frame, layer)");
         assert!(x.cel_id.frame as u32 == f && x.cel_id.layer as u32 == l, "route denotes cel (f, l)");
